@@ -231,9 +231,17 @@ def convert_legacy_task(
         # graph: get_dependencies looks into them, so they are converted too
         parsed_dict = {k: convert_legacy_task(None, v, all_keys) for k, v in task.items()}
         if any(isinstance(v, GraphNode) for v in parsed_dict.values()):
-            new_dict = Dict(parsed_dict)
-            new_dict.key = key
-            return new_dict
+            if key is None:
+                return Dict(parsed_dict)
+            # A graph value needs a key (and copy() / substitute(key=...) that
+            # honour it): build the same computation as a plain Task, like
+            # the one a list is converted to
+            return Task(
+                key,
+                NestedContainer.to_container,
+                *itertools.chain(*parsed_dict.items()),
+                constructor=Dict.constructor,
+            )
         return cast(_T, parsed_dict)
     if isinstance(task, (list, tuple, set, frozenset)):
         if is_namedtuple_instance(task):
